@@ -3,4 +3,4 @@ From Shisui Require Import Model.Table.
 Extraction Language OCaml.
 Extraction "table_model.ml" init step steps bucket_of logdist inv_b blocal_b gips_b glists_b gactive_b
   chk_sizes_ents chk_sizes_reps chk_unique chk_self chk_place chk_iplimit_bucket chk_iplimit_table
-  fails_step hist_fails consec with_fails fails_read pol_full_b pol_leave_b pol_succ_b pol_record_b pol_endpoint_b pol_kept_b must_leave_b pol_credit_b pol_failed_credit_b pol_failed_gone_b failed_target reval_outcome xinit xstep xresolve start_seq started_after.
+  fails_step hist_fails consec with_fails fails_read pol_full_b pol_leave_b pol_succ_b pol_record_b pol_endpoint_b pol_kept_b must_leave_b pol_credit_b pol_failed_credit_b pol_failed_gone_b failed_target pol_active_b reval_outcome xinit xstep xresolve start_seq started_after.
